@@ -127,11 +127,17 @@ Proof.
   destruct (C11_driver_sound G tbl lbl _ w evs OK E) as [H1 [H2 [_ [_ [H3 H4]]]]]. auto.
 Qed.
 
-(** The membership oracle used for the completeness search never lists a non-sentence. *)
+(** The membership oracle used for the completeness search is exact up to its length bound
+    whenever it answers: it lists a string iff the string is a sentence of length <= n. *)
 Theorem C11_oracle_sound :
   forall (G : gram) (fuel n : nat) (l : list (list nat)) (w : list nat),
     lang_upto fuel G n = Some l -> mem_str w l = true -> L G w.
 Proof. intros G fuel n l w. apply lang_upto_sound. Qed.
+
+Theorem C11_oracle_complete :
+  forall (G : gram) (fuel n : nat) (l : list (list nat)) (w : list nat),
+    lang_upto fuel G n = Some l -> L G w -> length w <= n -> mem_str w l = true.
+Proof. intros G fuel n l w. apply lang_upto_complete. Qed.
 
 (** Non-vacuity: the SLR table that parser/lr/simple builds for S -> a b a | S S a
     (a = 0, b = 1, S = 18) accepts "aba" and "abaabaa" and rejects "abaa". *)
@@ -155,6 +161,7 @@ Proof. vm_compute. repeat split. Qed.
 Print Assumptions C11_driver_sound.
 Print Assumptions C11_driver_terminates.
 Print Assumptions C11_oracle_sound.
+Print Assumptions C11_oracle_complete.
 Print Assumptions C11_prec_resolve.
 Print Assumptions C11_prec.
 Print Assumptions C11_recognises_partial.
